@@ -32,7 +32,7 @@ func init() {
 	Register(&Rule{ID: "CURSORCLONE", Props: []string{"C02", "C10", "C16"}, Min: 2,
 		Doc: "Cursor() walks the clone, not the original: the tree it stores in the cursor and the tree through which it loads the path's root node are both the local result of Clone.",
 		Run: runCURSORCLONE})
-	Register(&Rule{ID: "STALEPTR", Props: []string{"C10", "C01"}, Min: 3,
+	Register(&Rule{ID: "STALEPTR", Props: []string{"C10", "C01", "C12"}, Min: 3,
 		Doc: "no store goes through a pointer to a slice element (p = &S[i]) after S may have been re-allocated by S = append(S, …) without p being re-derived: such a write lands in the old backing array and is lost.",
 		Run: runSTALEPTR})
 	Register(&Rule{ID: "ITERDONE", Props: []string{"C10", "C01", "C16"}, Min: 2,
@@ -1356,10 +1356,27 @@ func runGROWLOOP(c *Ctx) {
 		c.AnchorMissing("functions that add and remove a level (store height±1)")
 		return
 	}
-	for fn, d := range dir {
+	// a private helper that performs the step once (installGrownRoot called by grow) makes its caller the
+	// level-changing function: the loop is looked for around the outermost such caller
+	var order []*ssa.Function
+	for fn := range dir {
+		order = append(order, fn)
+	}
+	sort.Slice(order, func(i, j int) bool { return order[i].Pos() < order[j].Pos() })
+	for qi := 0; qi < len(order); qi++ {
+		fn := order[qi]
+		d := dir[fn]
 		for _, cs := range c.P.Callers[fn] {
 			caller := cs.Parent()
 			what := fmt.Sprintf("%s calls %s", ir.FuncName(caller), fn.Name())
+			if co := ir.Outermost(caller); !inCycle(cs.Block()) && co == caller && co.Object() != nil && !co.Object().Exported() && !c.Facts.addrTaken[co] && len(c.P.Callers[co]) > 0 && co != fn {
+				if _, seen := dir[co]; !seen {
+					dir[co] = d
+					order = append(order, co)
+				}
+				c.OK(P.InstrPos(cs), what, "single step inside the private helper "+ir.FuncName(co)+": the loop is required around its callers", false)
+				continue
+			}
 			// the guard on the height: every level above 0 may be removed, none may be required beyond that
 			for _, f := range ir.FactsAt(cs.Block()) {
 				bin, ok := f.Cond.(*ssa.BinOp)
@@ -1806,11 +1823,13 @@ func runGROWCHECK(c *Ctx) {
 	}
 	// root-installing calls: callees that store Mast.root and take a []pathEntry
 	type inst struct {
-		call ssa.CallInstruction
-		path ssa.Value
+		site rsite
+		path string // the path argument, in Insert's terms
 	}
+	sites := regionSites(c, ins)
 	var installs []inst
-	for _, ci := range CallsOf(ins) {
+	for _, rs := range sites {
+		ci := rs.ci
 		for _, callee := range c.Facts.Callees(ci) {
 			storesRoot := false
 			for _, b := range callee.Blocks {
@@ -1825,7 +1844,7 @@ func runGROWCHECK(c *Ctx) {
 			}
 			for _, a := range ci.Common().Args {
 				if sl, ok := a.Type().Underlying().(*types.Slice); ok && ir.IsNamed(sl.Elem(), pathNames(c.P).typ) {
-					installs = append(installs, inst{ci, a})
+					installs = append(installs, inst{rs, rs.symInEntry(ir.Sym(a))})
 				}
 			}
 		}
@@ -1834,11 +1853,25 @@ func runGROWCHECK(c *Ctx) {
 		c.AnchorMissing("Insert's call that installs the new root from the search path")
 		return
 	}
-	// growth tests: calls in a loop of Insert on a *mastNode receiver returning (bool, error)
+	// does a run before b? both are sites of Insert's region: compared at their anchors in Insert, or, under the same
+	// anchor, inside the helper they share
+	before := func(a, b rsite) bool {
+		if a.anchor() != b.anchor() {
+			return ir.Before(a.anchor(), b.anchor())
+		}
+		return a.ci.Parent() == b.ci.Parent() && ir.Before(a.ci, b.ci)
+	}
+	reaches := func(a, b rsite) bool {
+		if a.anchor() != b.anchor() {
+			return ir.InstrReaches(a.anchor(), b.anchor())
+		}
+		return a.ci.Parent() == b.ci.Parent() && ir.InstrReaches(a.ci, b.ci)
+	}
+	// growth tests: calls in a loop of Insert (or of a private helper of it) on a *mastNode returning (bool, error)
 	n := 0
-	for _, ci := range CallsOf(ins) {
-		call, ok := ci.(*ssa.Call)
-		if !ok || !inCycle(call.Block()) {
+	for _, rs := range sites {
+		call, ok := rs.ci.(*ssa.Call)
+		if !ok || !rs.inLoop() {
 			continue
 		}
 		var recv ssa.Value
@@ -1859,25 +1892,36 @@ func runGROWCHECK(c *Ctx) {
 		}
 		n++
 		// the installing call that dominates this test
-		var install ssa.CallInstruction
-		var pathArg ssa.Value
-		for _, in := range installs {
-			if ir.Before(in.call, call) {
-				install, pathArg = in.call, in.path
+		var install *inst
+		for i := range installs {
+			if before(installs[i].site, rs) {
+				install = &installs[i]
 			}
 		}
 		if install == nil {
 			c.Violation(ins, P.InstrPos(call), "growth test not preceded by installing the new root", "the test would look at the tree as it was before this insert")
 			continue
 		}
-		want := "*" + ir.Sym(pathArg) + "[0]." + nodeFieldName
+		want := "*" + install.path + "[0]." + nodeFieldName
 		_, isRoot := rootLoad(recv)
 		pos := P.InstrPos(call)
 		switch {
-		case !ir.InstrReaches(install, call):
+		case !reaches(install.site, rs):
 			c.Violation(ins, pos, "growth test before the new root is installed", "the test would look at the tree as it was before this insert")
-		case ir.Sym(recv) == want:
-			if ld, ok := recv.(*ssa.UnOp); ok && ir.InstrReaches(install, ld) {
+		case rs.symInEntry(ir.Sym(recv)) == want:
+			// a node the helper was handed is the value the caller read
+			lifted := recv
+			for i := len(rs.chain) - 1; i >= 0; i-- {
+				prm, isP := ir.ResolveCell(lifted).(*ssa.Parameter)
+				if !isP || prm.Parent() != ir.Callee(rs.chain[i].Call) {
+					break
+				}
+				lifted = rs.chain[i].Call.Args[paramIndex(prm)]
+			}
+			ld, isLd := lifted.(*ssa.UnOp)
+			after := isLd && ((ld.Parent() == install.site.ci.Parent() && ir.InstrReaches(install.site.ci, ld)) ||
+				(ld.Parent() != install.site.ci.Parent() && ld.Parent() == call.Parent() && len(rs.chain) > 0 && install.site.anchor() != rs.anchor()))
+			if after {
 				c.OK(pos, "growth test on the installed root", "receiver is "+pathDesc(want)+", read after the root was installed", false)
 			} else {
 				c.Violation(ins, pos, "growth test on a node read before the root was installed", "the path's first node is replaced by a copy when the root is installed; the earlier value does not contain the new key")
